@@ -27,6 +27,9 @@ class Engine:
         self._ret_types: Dict[str, FrozenSet] = {}
         self._ret_busy: Set[str] = set()
         self._callgraph: Optional[Dict[str, Set[str]]] = None
+        self._infer_cache: Dict[Tuple[int, str], FrozenSet] = {}
+        self._resolve_cache: Dict[Tuple[int, str], List] = {}
+        self._appends: Dict[str, Dict[str, List[ast.Call]]] = {}
 
     # ------------------------------------------------------------------ flows
     def flow(self, fi: FuncInfo) -> Flow:
@@ -98,6 +101,15 @@ class Engine:
     # ------------------------------------------------------------------ call resolution
     def resolve_call(self, fi: FuncInfo, call: ast.Call) -> List:
         """Targets: FuncInfo | ClassInfo | ('external', dotted) | ('builtin', name) | ('unknown', text)."""
+        key = (id(call), fi.qualname)
+        r = self._resolve_cache.get(key)
+        if r is None:
+            r = self._resolve_call(fi, call)
+            if hasattr(call, "lineno"):
+                self._resolve_cache[key] = r
+        return r
+
+    def _resolve_call(self, fi: FuncInfo, call: ast.Call) -> List:
         f = call.func
         if isinstance(f, ast.Name):
             n = self.lookup_nested(fi, f.id)
@@ -189,7 +201,7 @@ class Engine:
             cands = []
             for c in self.prog.classes.values():
                 m = c.method(f.attr)
-                if m is not None and not m.is_property:
+                if m is not None and not m.is_property and _arity_ok(m, call):
                     cands.append(m)
             if cands:
                 return cands + [("byname", f.attr)]
@@ -280,10 +292,32 @@ class Engine:
     def infer(self, e, fi: FuncInfo, depth: int = 6) -> FrozenSet:
         if depth <= 0:
             return frozenset({UNKNOWN})
+        key = (id(e), fi.qualname)
+        if depth >= 5 and key in self._infer_cache:
+            return self._infer_cache[key]
         try:
-            return self._infer(e, fi, depth)
+            r = self._infer(e, fi, depth)
         except RecursionError:  # pragma: no cover
-            return frozenset({UNKNOWN})
+            r = frozenset({UNKNOWN})
+        if depth >= 5 and hasattr(e, "lineno"):
+            self._infer_cache[key] = r
+        return r
+
+    def _appends_to(self, fi: FuncInfo, name: str) -> List[ast.Call]:
+        d = self._appends.get(fi.qualname)
+        if d is None:
+            d = {}
+            for n in own_nodes(fi.node):
+                if (
+                    isinstance(n, ast.Call)
+                    and isinstance(n.func, ast.Attribute)
+                    and n.func.attr == "append"
+                    and isinstance(n.func.value, ast.Name)
+                    and n.args
+                ):
+                    d.setdefault(n.func.value.id, []).append(n)
+            self._appends[fi.qualname] = d
+        return d.get(name, [])
 
     def _infer(self, e, fi, depth) -> FrozenSet:
         U = frozenset({UNKNOWN})
@@ -320,16 +354,8 @@ class Engine:
                     out |= self._def_type(d, fi, depth - 1)
                 if any(t[0] == "list" for t in out):
                     extra = set()
-                    for n in own_nodes(fi.node):
-                        if (
-                            isinstance(n, ast.Call)
-                            and isinstance(n.func, ast.Attribute)
-                            and n.func.attr == "append"
-                            and isinstance(n.func.value, ast.Name)
-                            and n.func.value.id == e.id
-                            and n.args
-                        ):
-                            extra |= self._infer(n.args[0], fi, depth - 1)
+                    for n in self._appends_to(fi, e.id):
+                        extra |= self.infer(n.args[0], fi, depth - 1)
                     out = {("list", frozenset(set(t[1]) | extra)) if t[0] == "list" else t for t in out}
                 return frozenset(out) if out else U
             # closure variable
@@ -360,7 +386,7 @@ class Engine:
             if d in ("np.asarray", "np.array", "np.zeros"):
                 return frozenset({("ndarray",)})
             if isinstance(e.func, ast.Attribute):
-                rt = self._infer(e.func.value, fi, depth - 1)
+                rt = self.infer(e.func.value, fi, depth - 1)
                 if rt == frozenset({("str",)}):
                     a = e.func.attr
                     if a in STR_METHODS_STR:
@@ -382,7 +408,7 @@ class Engine:
                     out.add(UNKNOWN)
             return frozenset(out) if out else U
         if isinstance(e, ast.Attribute):
-            bt = self._infer(e.value, fi, depth - 1)
+            bt = self.infer(e.value, fi, depth - 1)
             out = set()
             for t in bt:
                 if t[0] == "inst":
@@ -391,7 +417,7 @@ class Engine:
                     out.add(UNKNOWN)
             return frozenset(out) if out else U
         if isinstance(e, ast.Subscript):
-            bt = self._infer(e.value, fi, depth - 1)
+            bt = self.infer(e.value, fi, depth - 1)
             out = set()
             for t in bt:
                 if t[0] == "list":
@@ -425,7 +451,7 @@ class Engine:
 
     def _def_type(self, d, fi, depth) -> Set:
         if d.kind == "assign":
-            return set(self._infer(d.value, fi, depth))
+            return set(self.infer(d.value, fi, depth))
         if d.kind == "aug":
             base = set()
             flow = self.flow(fi)
@@ -434,7 +460,7 @@ class Engine:
                     base |= self._def_type(pd, fi, depth - 1) if depth > 0 else {UNKNOWN}
             return base or {UNKNOWN}
         if d.kind == "for":
-            it = self._infer(d.value, fi, depth)
+            it = self.infer(d.value, fi, depth)
             out = set()
             if d.extra:
                 return {UNKNOWN}
@@ -538,6 +564,29 @@ class Engine:
             r = frozenset(res)
         self._attr_types[key] = r
         return r
+
+
+def _arity_ok(m: FuncInfo, call: ast.Call) -> bool:
+    a = m.node.args
+    params = [x.arg for x in a.posonlyargs + a.args]
+    if params and params[0] in ("self", "cls") and not m.is_static:
+        params = params[1:]
+    npos = len(call.args)
+    if any(isinstance(x, ast.Starred) for x in call.args) or any(k.arg is None for k in call.keywords):
+        return True
+    if npos > len(params) and a.vararg is None:
+        return False
+    names = set(params) | {x.arg for x in a.kwonlyargs}
+    for k in call.keywords:
+        if k.arg not in names and a.kwarg is None:
+            return False
+    ndefaults = len(a.defaults)
+    required = params[: len(params) - ndefaults] if ndefaults else params
+    given = set(params[:npos]) | {k.arg for k in call.keywords}
+    for r in required:
+        if r not in given:
+            return False
+    return True
 
 
 def _is_self_attr(t, attr) -> bool:
